@@ -51,17 +51,21 @@ class Ctx:
         self.inline_depth = inline_depth
         self.opaque_count = 0
         self.notes = []
-        self.unroll = 0
+        self.unroll = 16            # for-loops / comprehensions over literal sequences of at most that length are executed element by element
+        self.unroll_while = 0       # > 0: while-loops are unrolled into that many nested ifs (only on request)
+        self.pending_raises = []
 
 
-def eval_function(repo, modname, qual, arg_terms=None, inline_depth=2, refine_guards=True, extra_env=None, unroll=0):
+def eval_function(repo, modname, qual, arg_terms=None, inline_depth=3, refine_guards=True, extra_env=None, unroll=0):
     """Return (outcomes, ctx).  Each outcome: kind in {'ret','raise','fall'}, cond
     (path condition term), value term."""
     fn = repo.func(modname, qual)
     cls = qual.split(".")[0] if "." in qual and "<locals>" not in qual.split(".")[1:2] and qual.split(".")[0] in repo.mod(modname).classes else None
     ctx = Ctx(repo, modname, cls, inline_depth)
     ctx.refine_guards = refine_guards
-    ctx.unroll = unroll              # > 0: for-loops over literal sequences of at most that length are executed element by element
+    if unroll:
+        ctx.unroll = max(ctx.unroll, unroll)
+        ctx.unroll_while = unroll
     env = bind_params(fn, arg_terms)
     if extra_env:
         env.update(extra_env)          # e.g. {"self._t": ("epoch", sym)}: kinds/values of object fields
@@ -148,6 +152,16 @@ def exec_block(ctx, stmts, env, cond):
     env = dict(env)
     for i, st in enumerate(stmts):
         r = exec_stmt(ctx, st, env, cond)
+        pend = getattr(ctx, "pending_raises", None)
+        if pend:
+            # raise paths of helpers inlined while evaluating this statement
+            rcs = []
+            for rc, rv in pend:
+                outs.append(Outcome("raise", T.land(cond, rc), rv, env, st))
+                rcs.append(rc)
+            del pend[:]
+            stay = T.land(*[T.lnot(rc) for rc in rcs])
+            r = [Outcome(o.kind, T.land(o.cond, stay), o.value, o.env, o.node) if o.kind == "fall" else o for o in r]
         fall = None
         for o in r:
             if o.kind == "fall":
@@ -419,12 +433,12 @@ def exec_loop(ctx, st, env, cond):
         if items is not None and len(items) <= ctx.unroll and \
                 not any(isinstance(x, (ast.Break, ast.Continue)) for b in st.body for x in ast.walk(b)):
             return exec_unrolled(ctx, st, items, env, cond)
-    if ctx.unroll and isinstance(st, ast.While) and not st.orelse and getattr(st, "_pmv_unroll", True) \
+    if getattr(ctx, "unroll_while", 0) and isinstance(st, ast.While) and not st.orelse and getattr(st, "_pmv_unroll", True) \
             and not any(isinstance(x, (ast.Break, ast.Continue)) for b in st.body for x in ast.walk(b)):
         # bounded unrolling: while c: B  ==  if c: B; if c: B; ... ; beyond the bound the path raises
         inner = [ast.Raise(exc=ast.Call(func=ast.Name(id="RuntimeError", ctx=ast.Load()), args=[ast.Constant(value="$unroll-bound")], keywords=[]),
                            cause=None)]
-        for _ in range(ctx.unroll):
+        for _ in range(ctx.unroll_while):
             inner = [ast.If(test=st.test, body=list(st.body) + inner, orelse=[])]
         node = inner[0]
         ast.copy_location(node, st)
@@ -611,7 +625,13 @@ def ev(ctx, node, env):
         parts = []
         for op, c in zip(node.ops, node.comparators):
             r = ev(ctx, c, env)
-            parts.append(("cmp", type(op).__name__, cmpval(left), cmpval(r)))
+            if isinstance(op, (ast.In, ast.NotIn)) and r[0] in ("tuple", "list") and len(r) > 1 and all(x[0] in ("num", "str") for x in r[1:]):
+                # x in (a, b)  ==  x == a or x == b
+                eqs = tuple(("cmp", "Eq", cmpval(left), x) for x in r[1:])
+                alt = eqs[0] if len(eqs) == 1 else ("or",) + eqs
+                parts.append(alt if isinstance(op, ast.In) else T.lnot(alt))
+            else:
+                parts.append(("cmp", type(op).__name__, cmpval(left), cmpval(r)))
             left = r
         return parts[0] if len(parts) == 1 else ("and",) + tuple(parts)
     if isinstance(node, ast.IfExp):
@@ -633,6 +653,9 @@ def ev(ctx, node, env):
         if isinstance(node.slice, ast.Slice):
             sl = node.slice
             parts = tuple(ev(ctx, x, env) if x is not None else T.NONE for x in (sl.lower, sl.upper, sl.step))
+            if base[0] in ("tuple", "list") and all(x == T.NONE or (x[0] == "num" and x[1].denominator == 1) for x in parts):
+                lo, hi, stp = (None if x == T.NONE else int(x[1]) for x in parts)
+                return (base[0],) + tuple(base[1:][slice(lo, hi, stp)])
             return T.call("slice", base, *parts)
         idx = ev(ctx, node.slice, env)
         if base[0] in ("tuple", "list") and idx[0] == "num" and idx[1].denominator == 1:
@@ -751,7 +774,16 @@ def global_value(ctx, modname, name, gnode):
     if isinstance(gnode, ast.Call) and isinstance(gnode.func, ast.Name) and gnode.func.id in ("Epoch", "Angle"):
         sub = Ctx(ctx.repo, modname)
         return ev(sub, gnode, {})
-    if getattr(ctx, "unroll", 0) and isinstance(gnode, ast.Dict) and len(gnode.keys) <= 64 \
+    inv = inventory().get(modname)
+    if isinstance(gnode, (ast.Tuple, ast.List)) and len(gnode.elts) <= 64 and (inv is None or name not in inv["globals"]):
+        try:
+            sub = Ctx(ctx.repo, modname)
+            v = ev(sub, gnode, {})
+            if all(x[0] in ("num", "tuple", "list", "str") for x in v[1:]):
+                return v                   # a small literal sequence introduced by a refactoring
+        except AnalysisError:
+            pass
+    if getattr(ctx, "unroll_while", 0) and isinstance(gnode, ast.Dict) and len(gnode.keys) <= 64 \
             and all(isinstance(k, ast.Constant) for k in gnode.keys):
         sub = Ctx(ctx.repo, modname)
         return ev(sub, gnode, {})             # small literal lookup table (unroll mode only)
@@ -912,7 +944,7 @@ def ev_call(ctx, node, env):
             return T.call(name, *args)
         # module function / imported function
         tgt = resolve_name(ctx, name)
-        return repo_call(ctx, tgt, args, kws, star_kw)
+        return repo_call(ctx, tgt, args, kws, star_kw, env)
     # ---- attribute calls
     if isinstance(f, ast.Attribute):
         meth = f.attr
@@ -923,7 +955,7 @@ def ev_call(ctx, node, env):
                 tgt = resolve_name(ctx, base)
                 if base == "Angle" and meth in ("reduce_deg",):
                     return T.call("red", *args)
-                return repo_call(ctx, tgt + "." + meth, args, kws, star_kw)
+                return repo_call(ctx, tgt + "." + meth, args, kws, star_kw, env)
         recv = ev(ctx, f.value, env)
         if recv[0] in ("list", "tuple") and meth == "index" and len(args) == 1 and args[0] in recv[1:] \
                 and all(x[0] in ("num", "sym") for x in recv[1:]):
@@ -954,7 +986,7 @@ def ev_call(ctx, node, env):
         if meth == "jde" and not args:
             return T.call("jdeof", recv)
         if recv == T.sym("self") and ctx.cls:
-            return repo_call(ctx, "%s.%s.%s" % (ctx.modname, ctx.cls, meth), [recv] + args, kws, star_kw)
+            return repo_call(ctx, "%s.%s.%s" % (ctx.modname, ctx.cls, meth), [recv] + args, kws, star_kw, env)
         return T.call("." + meth, recv, *args, *[("kw", k, v) for k, v in sorted(kws.items())])
     # ---- call of a call result, e.g. a()()
     fv = ev(ctx, f, env)
@@ -1066,7 +1098,90 @@ RETURNS_ANGLE = {"Coordinates.mean_obliquity", "Coordinates.true_obliquity",
                  "Coordinates.angular_separation"}
 
 
-def repo_call(ctx, tgt, args, kws, star_kw):
+_INVENTORY = None
+
+
+def inventory():
+    global _INVENTORY
+    if _INVENTORY is None:
+        import json
+        import os
+        p = os.path.join(os.path.dirname(os.path.abspath(__file__)), "inventory.json")
+        _INVENTORY = json.load(open(p)) if os.path.exists(p) else {}
+    return _INVENTORY
+
+
+def new_helper(ctx, tgt):
+    """FunctionDef of tgt if it is a function of the analysed tree that is NOT in the frozen inventory of
+    known functions (i.e. a helper introduced by a refactoring), else None"""
+    mod, _, qual = tgt.partition(".")
+    m = ctx.repo.modules.get(mod)
+    if m is None or qual not in m.functions:
+        return None
+    inv = inventory().get(mod)
+    if inv is not None and qual in inv["functions"]:
+        return None
+    return m.functions[qual]
+
+
+def inline_repo(ctx, tgt, fn, args, kws, star_kw, env):
+    """evaluate the body of a new helper with the actual arguments; its raise paths are queued in ctx.pending_raises and
+    picked up by exec_block of the caller"""
+    mod, _, qual = tgt.partition(".")
+    cls = qual.split(".")[0] if "." in qual and qual.split(".")[0] in ctx.repo.modules[mod].classes else None
+    sub = Ctx(ctx.repo, mod, cls, ctx.inline_depth - 1)
+    sub.loop_counter = ctx.loop_counter + 1000 * (4 - ctx.inline_depth)
+    sub.unroll, sub.unroll_while = ctx.unroll, getattr(ctx, "unroll_while", 0)
+    sub.refine_guards = getattr(ctx, "refine_guards", True)
+    sub.pending_raises = []
+    a = fn.args
+    names = [x.arg for x in a.posonlyargs + a.args]
+    cenv = {}
+    defaults = [None] * (len(names) - len(a.defaults)) + list(a.defaults)
+    for n, d in zip(names, defaults):
+        if d is not None:
+            cenv[n] = ev(sub, d, {})
+    pos = list(args)
+    is_static = any(isinstance(d, ast.Name) and d.id in ("staticmethod", "classmethod") for d in fn.decorator_list)
+    if cls and not is_static and names and names[0] == "self" and (not pos or len(pos) < len([n for n in names if n not in kws])):
+        pos = [T.sym("self")] + pos
+    for n, v in zip(names, pos):
+        cenv[n] = v
+    if a.vararg:
+        cenv[a.vararg.arg] = ("tuple",) + tuple(pos[len(names):])
+    for k, v in kws.items():
+        cenv[k] = v
+    if a.kwarg:
+        cenv[a.kwarg.arg] = star_kw[0] if star_kw else ("dict", ())
+    for n in names:
+        cenv.setdefault(n, T.sym(n))
+    for k, v in (env or {}).items():
+        if isinstance(k, str) and k.startswith("self.") and cenv.get("self") == T.sym("self"):
+            cenv[k] = v
+    outs = exec_block(sub, body_without_docstring(fn), cenv, T.land())
+    ctx.loop_counter = max(ctx.loop_counter, sub.loop_counter)
+    pend = getattr(ctx, "pending_raises", None)
+    if pend is None:
+        pend = ctx.pending_raises = []
+    for o in outs:
+        if o.kind == "raise":
+            pend.append((o.cond, o.value))
+    for c, v in sub.pending_raises:
+        pend.append((c, v))
+    # field writes of a method helper are visible to the caller
+    falls = [o for o in outs if o.kind in ("fall", "ret")]
+    if env is not None and len(falls) == 1:
+        for k, v in falls[0].env.items():
+            if isinstance(k, str) and k.startswith("self.") and cenv.get("self") == T.sym("self"):
+                env[k] = v
+    t = return_term(outs)
+    return T.NONE if t is None else t
+
+
+def repo_call(ctx, tgt, args, kws, star_kw, env=None):
+    fn = new_helper(ctx, tgt) if ctx.inline_depth > 0 else None
+    if fn is not None:
+        return inline_repo(ctx, tgt, fn, args, kws, star_kw, env)
     extra = [("kw", k, v) for k, v in sorted(kws.items())] + [("kw", "**", v) for v in star_kw]
     t = T.call(tgt, *args, *extra)
     if tgt in RETURNS_EPOCH:
